@@ -1,0 +1,291 @@
+//go:build verif
+
+// Contracts for the decoders (property C15): for every byte string each Decode terminates, never
+// panics (index, slice, nil, make-size), allocates no more than the documented limits, and reports an
+// error whenever the stream ran out or a validity check failed. The input stream is adversarial: every
+// primitive read returns an unconstrained value and error status (engine model, DESIGN 2.4).
+// Comment-only; build tag verif.
+
+package s2
+
+//@ import "io"
+//@ import "github.com/golang/geo/r3"
+
+//@ property C15
+
+// documented allocation limits (maxEncodedVertices, maxEncodedLoops, maxCells)
+//@ alloclimit Point 50000000
+//@ alloclimit *Loop 10000000
+//@ alloclimit CellID 1000000
+//@ alloclimit byte 64
+//@ alloclimit uint8 64
+
+// ---- primitive readers: sticky error, zero result after an error
+
+//@ func (d *decoder) readBool() (x bool)
+//@   stream fixed
+//@   requires d != nil && d.r != nil
+//@   modifies d.err
+//@   ensures [err-kept] vcErrKept(d, old(d.err), old(vcErrorRaised()))
+//@   ensures [sticky] old(d.err) != nil ==> d.err == old(d.err) && !x
+
+//@ func (d *decoder) readInt8() (x int8)
+//@   stream fixed
+//@   requires d != nil && d.r != nil
+//@   modifies d.err
+//@   ensures [err-kept] vcErrKept(d, old(d.err), old(vcErrorRaised()))
+//@   ensures [sticky] old(d.err) != nil ==> d.err == old(d.err) && x == 0
+
+//@ func (d *decoder) readInt64() (x int64)
+//@   stream fixed
+//@   requires d != nil && d.r != nil
+//@   modifies d.err
+//@   ensures [err-kept] vcErrKept(d, old(d.err), old(vcErrorRaised()))
+//@   ensures [sticky] old(d.err) != nil ==> d.err == old(d.err) && x == 0
+
+//@ func (d *decoder) readUint8() (x uint8)
+//@   stream fixed
+//@   requires d != nil && d.r != nil
+//@   modifies d.err
+//@   ensures [err-kept] vcErrKept(d, old(d.err), old(vcErrorRaised()))
+//@   ensures [sticky] old(d.err) != nil ==> d.err == old(d.err) && x == 0
+
+//@ func (d *decoder) readUint32() (x uint32)
+//@   stream fixed
+//@   requires d != nil && d.r != nil
+//@   modifies d.err
+//@   ensures [err-kept] vcErrKept(d, old(d.err), old(vcErrorRaised()))
+//@   ensures [sticky] old(d.err) != nil ==> d.err == old(d.err) && x == 0
+
+//@ func (d *decoder) readUint64() (x uint64)
+//@   stream fixed
+//@   requires d != nil && d.r != nil
+//@   modifies d.err
+//@   ensures [err-kept] vcErrKept(d, old(d.err), old(vcErrorRaised()))
+//@   ensures [sticky] old(d.err) != nil ==> d.err == old(d.err) && x == 0
+
+//@ func (d *decoder) readUvarint() (x uint64)
+//@   stream uvarint
+//@   requires d != nil && d.r != nil
+//@   modifies d.err
+//@   ensures [err-kept] vcErrKept(d, old(d.err), old(vcErrorRaised()))
+//@   ensures [sticky] old(d.err) != nil ==> d.err == old(d.err) && x == 0
+
+//@ func (d *decoder) readFloat64() float64
+//@   stream fixed
+//@   requires d != nil && d.r != nil && (d.buf == nil || len(d.buf) == 8)
+//@   modifies d.err, d.buf, d.buf[*]
+//@   ensures [err-kept] vcErrKept(d, old(d.err), old(vcErrorRaised()))
+//@   ensures [sticky] old(d.err) != nil ==> d.err == old(d.err) && vcBits(result) == 0
+//@   ensures [buf] d.buf == nil || len(d.buf) == 8
+
+// errors are sticky and every error raised during a call is visible in d.err afterwards
+//@ spec func vcErrKept(d *decoder, err0 error, raised0 bool) bool = (err0 != nil ==> d.err != nil) && (vcErrorRaised() && !raised0 ==> d.err != nil)
+
+//@ spec func vcDecoderOK(d *decoder) bool = d != nil && d.r != nil && (d.buf == nil || len(d.buf) == 8)
+
+// ---- functions outside the decoder boundary (float geometry, index build): used through assumed contracts
+
+//@ func NewShapeIndex() *ShapeIndex
+//@   assumed "index bookkeeping is verified under C13; here only: returns a fresh non-nil index"
+//@   ensures result != nil && vcFresh(result)
+
+//@ func (s *ShapeIndex) Add(shape Shape) int32
+//@   assumed "verified under C13"
+//@   requires s != nil
+//@   modifies *s
+
+//@ func ExpandForSubregions(bound Rect) Rect
+//@   assumed "float-only computation on a value; cannot panic"
+
+//@ func (l *Loop) initBound()
+//@   assumed "float geometry on decoded coordinates: outside the decoder boundary (DESIGN C15, unverified remainder)"
+//@   requires l != nil
+//@   modifies l.bound, l.subregionBound
+
+//@ func (p *Polygon) initLoopProperties()
+//@   assumed "float geometry and index build on decoded coordinates: outside the decoder boundary"
+//@   requires p != nil
+//@   modifies *p
+
+//@ func (p *Polygon) initEdgesAndIndex()
+//@   assumed "index build: outside the decoder boundary"
+//@   requires p != nil
+//@   modifies *p
+
+//@ func facePiQitoXYZ(face int, pi, qi uint32, level int) r3.Vector
+//@   assumed "float-only computation; face is reduced by a switch with default"
+
+//@ func CellFromCellID(id CellID) Cell
+//@   assumed "cell geometry from an arbitrary 64-bit id: float code; table indices verified under C12"
+
+// ---- value decoders
+
+//@ func (p *Point) decode(d *decoder)
+//@   requires p != nil && vcDecoderOK(d)
+//@   modifies *p, d.err, d.buf, d.buf[*]
+//@   ensures [err-kept] vcErrKept(d, old(d.err), old(vcErrorRaised()))
+//@   ensures vcDecoderOK(d)
+
+//@ func (p *Point) Decode(r io.Reader) error
+//@   requires p != nil && r != nil
+//@   modifies *p
+//@   ensures [error-propagated] result == nil ==> !vcErrorRaised() || old(vcErrorRaised())
+
+//@ func (c *Cap) decode(d *decoder)
+//@   requires c != nil && vcDecoderOK(d)
+//@   modifies *c, d.err, d.buf, d.buf[*]
+//@   ensures [err-kept] vcErrKept(d, old(d.err), old(vcErrorRaised()))
+//@   ensures vcDecoderOK(d)
+
+//@ func (c *Cap) Decode(r io.Reader) error
+//@   requires c != nil && r != nil
+//@   modifies *c
+//@   ensures [error-propagated] result == nil ==> !vcErrorRaised() || old(vcErrorRaised())
+
+//@ func (r *Rect) decode(d *decoder)
+//@   requires r != nil && vcDecoderOK(d)
+//@   modifies *r, d.err, d.buf, d.buf[*]
+//@   ensures [err-kept] vcErrKept(d, old(d.err), old(vcErrorRaised()))
+//@   ensures vcDecoderOK(d)
+
+//@ func (r *Rect) Decode(rd io.Reader) error
+//@   requires r != nil && rd != nil
+//@   modifies *r
+//@   ensures [error-propagated] result == nil ==> !vcErrorRaised() || old(vcErrorRaised())
+
+//@ func (ci *CellID) decode(d *decoder)
+//@   requires ci != nil && vcDecoderOK(d)
+//@   modifies *ci, d.err
+//@   ensures [err-kept] vcErrKept(d, old(d.err), old(vcErrorRaised()))
+//@   ensures vcDecoderOK(d)
+
+//@ func (ci *CellID) Decode(r io.Reader) error
+//@   requires ci != nil && r != nil
+//@   modifies *ci
+//@   ensures [error-propagated] result == nil ==> !vcErrorRaised() || old(vcErrorRaised())
+
+//@ func (c *Cell) decode(d *decoder)
+//@   requires c != nil && vcDecoderOK(d)
+//@   modifies *c, d.err
+//@   ensures [err-kept] vcErrKept(d, old(d.err), old(vcErrorRaised()))
+//@   ensures vcDecoderOK(d)
+
+//@ func (c *Cell) Decode(r io.Reader) error
+//@   requires c != nil && r != nil
+//@   modifies *c
+//@   ensures [error-propagated] result == nil ==> !vcErrorRaised() || old(vcErrorRaised())
+
+//@ func (cu *CellUnion) decode(d *decoder)
+//@   requires cu != nil && vcDecoderOK(d)
+//@   modifies *cu, d.err
+//@   ensures [err-kept] vcErrKept(d, old(d.err), old(vcErrorRaised()))
+//@   ensures vcDecoderOK(d)
+//@   loop 1 (rangeindex int): invariant vcDecoderOK(d) && cu != nil && vcErrKept(d, old(d.err), old(vcErrorRaised()))
+
+//@ func (cu *CellUnion) Decode(r io.Reader) error
+//@   requires cu != nil && r != nil
+//@   modifies *cu
+//@   ensures [error-propagated] result == nil ==> !vcErrorRaised() || old(vcErrorRaised())
+
+//@ func (p *Polyline) decode(d *decoder)
+//@   requires p != nil && vcDecoderOK(d)
+//@   modifies *p, d.err, d.buf, d.buf[*]
+//@   ensures [err-kept] vcErrKept(d, old(d.err), old(vcErrorRaised()))
+//@   ensures vcDecoderOK(d)
+//@   loop 1 (rangeindex int): invariant vcDecoderOK(d) && p != nil && vcErrKept(d, old(d.err), old(vcErrorRaised()))
+
+//@ func (p *Polyline) Decode(r io.Reader) error
+//@   requires p != nil && r != nil
+//@   modifies *p
+//@   ensures [error-propagated] result == nil ==> !vcErrorRaised() || old(vcErrorRaised())
+
+//@ func (l *Loop) decode(d *decoder)
+//@   requires l != nil && vcDecoderOK(d)
+//@   modifies *l, d.err, d.buf, d.buf[*]
+//@   ensures [err-kept] vcErrKept(d, old(d.err), old(vcErrorRaised()))
+//@   ensures vcDecoderOK(d)
+//@   loop 1 (rangeindex int): invariant vcDecoderOK(d) && l != nil && vcErrKept(d, old(d.err), old(vcErrorRaised()))
+
+//@ func (l *Loop) Decode(r io.Reader) error
+//@   requires l != nil && r != nil
+//@   modifies *l
+//@   ensures [error-propagated] result == nil ==> !vcErrorRaised() || old(vcErrorRaised())
+
+// ---- compressed format
+
+//@ spec func vcCoderOK(c *nthDerivativeCoder) bool = c != nil && 0 <= c.m && c.m <= c.n && c.n <= 10
+
+//@ func newNthDerivativeCoder(n int) *nthDerivativeCoder
+//@   requires 0 <= n && n <= 10
+//@   ensures vcCoderOK(result) && vcFresh(result) && result.n == n && result.m == 0
+
+//@ func (c *nthDerivativeCoder) decode(k int32) int32
+//@   requires vcCoderOK(c)
+//@   modifies c.m, c.memory
+//@   ensures vcCoderOK(c)
+//@   loop 1 (i int): invariant -1 <= i && i < c.m && vcCoderOK(c)
+
+//@ func decodeFaceRun(d *decoder) faceRun
+//@   requires vcDecoderOK(d)
+//@   modifies d.err
+//@   ensures [err-kept] vcErrKept(d, old(d.err), old(vcErrorRaised()))
+//@   ensures vcDecoderOK(d) && 0 <= result.face && result.face < 6 && (d.err == nil ==> result.count > 0) && result.count <= 1<<62
+
+//@ func decodeFaces(numVertices int, d *decoder) []faceRun
+//@   requires vcDecoderOK(d) && numVertices <= 50000000
+//@   modifies d.err
+//@   ensures [err-kept] vcErrKept(d, old(d.err), old(vcErrorRaised()))
+//@   ensures vcDecoderOK(d)
+//@   ensures [faces] forall k int :: 0 <= k && k < len(result) ==> 0 <= result[k].face && result[k].face < 6
+//@   loop 1 (nparsed int, frs []faceRun): invariant [decoder] vcDecoderOK(d) && vcErrKept(d, old(d.err), old(vcErrorRaised()))
+//@   loop 1: invariant [nparsed] 0 <= nparsed && nparsed <= 50000000+1<<62
+//@   loop 1: invariant [faces] forall k int :: 0 <= k && k < len(frs) ==> 0 <= frs[k].face && frs[k].face < 6
+//@   loop 1: decreases numVertices - nparsed
+
+//@ func decodeFirstPointFixedLength(d *decoder, level int, piCoder, qiCoder *nthDerivativeCoder) (pi, qi uint32)
+//@   requires vcDecoderOK(d) && 0 <= level && level <= 255 && vcCoderOK(piCoder) && vcCoderOK(qiCoder) && piCoder != qiCoder
+//@   modifies d.err, piCoder.m, piCoder.memory, qiCoder.m, qiCoder.memory
+//@   ensures [err-kept] vcErrKept(d, old(d.err), old(vcErrorRaised()))
+//@   ensures vcDecoderOK(d) && vcCoderOK(piCoder) && vcCoderOK(qiCoder)
+//@   loop 1 (i int): invariant vcDecoderOK(d) && 0 <= i && vcErrKept(d, old(d.err), old(vcErrorRaised()))
+
+//@ func decodePointCompressed(d *decoder, level int, piCoder, qiCoder *nthDerivativeCoder) (pi, qi uint32)
+//@   requires vcDecoderOK(d) && vcCoderOK(piCoder) && vcCoderOK(qiCoder) && piCoder != qiCoder
+//@   modifies d.err, piCoder.m, piCoder.memory, qiCoder.m, qiCoder.memory
+//@   ensures [err-kept] vcErrKept(d, old(d.err), old(vcErrorRaised()))
+//@   ensures vcDecoderOK(d) && vcCoderOK(piCoder) && vcCoderOK(qiCoder)
+
+//@ func decodePointsCompressed(d *decoder, level int, target []Point)
+//@   requires vcDecoderOK(d) && 0 <= level && level <= 255 && len(target) <= 50000000
+//@   modifies d.err, d.buf, d.buf[*], target[*]
+//@   ensures [err-kept] vcErrKept(d, old(d.err), old(vcErrorRaised()))
+//@   ensures vcDecoderOK(d)
+//@   loop 1 (rangeindex int, piCoder *nthDerivativeCoder, qiCoder *nthDerivativeCoder): invariant vcDecoderOK(d) && vcCoderOK(piCoder) && vcCoderOK(qiCoder) && piCoder != qiCoder && vcErrKept(d, old(d.err), old(vcErrorRaised()))
+//@   loop 2 (i int, numOffCenter int): invariant vcDecoderOK(d) && 0 <= i && vcErrKept(d, old(d.err), old(vcErrorRaised()))
+//@   loop 2: decreases numOffCenter - i
+
+//@ func (l *Loop) decodeCompressed(d *decoder, snapLevel int)
+//@   requires l != nil && vcDecoderOK(d) && 0 <= snapLevel && snapLevel <= 255
+//@   modifies *l, d.err, d.buf, d.buf[*]
+//@   ensures [err-kept] vcErrKept(d, old(d.err), old(vcErrorRaised()))
+//@   ensures vcDecoderOK(d)
+
+//@ func (p *Polygon) decode(d *decoder)
+//@   requires p != nil && vcDecoderOK(d)
+//@   modifies *p, d.err, d.buf, d.buf[*]
+//@   ensures [err-kept] vcErrKept(d, old(d.err), old(vcErrorRaised()))
+//@   ensures vcDecoderOK(d)
+//@   loop 1 (rangeindex int): invariant vcDecoderOK(d) && p != nil && vcErrKept(d, old(d.err), old(vcErrorRaised()))
+
+//@ func (p *Polygon) decodeCompressed(d *decoder)
+//@   requires p != nil && vcDecoderOK(d)
+//@   modifies *p, d.err, d.buf, d.buf[*]
+//@   ensures [err-kept] vcErrKept(d, old(d.err), old(vcErrorRaised()))
+//@   ensures vcDecoderOK(d)
+//@   loop 1 (rangeindex int): invariant vcDecoderOK(d) && p != nil && vcErrKept(d, old(d.err), old(vcErrorRaised()))
+
+//@ func (p *Polygon) Decode(r io.Reader) error
+//@   requires p != nil && r != nil
+//@   modifies *p
+//@   ensures [error-propagated] result == nil ==> !vcErrorRaised() || old(vcErrorRaised())
